@@ -375,6 +375,9 @@ Third:
 			}
 		}
 	case '\n':
+		if l.heredoc.exists() && !l.scanHeredocs() {
+			return nil
+		}
 		l.emit('\n')
 		if !l.linebreak() {
 			return nil
@@ -401,6 +404,9 @@ In:
 		case WORD:
 			l.emit(WORD)
 		case ';', '\n':
+			if tok == '\n' && l.heredoc.exists() && !l.scanHeredocs() {
+				return nil
+			}
 			l.emit(tok)
 			if !l.linebreak() {
 				return nil
@@ -691,6 +697,15 @@ Redir:
 }
 
 func (l *lexer) lexHeredoc() action {
+	if !l.scanHeredocs() {
+		return nil
+	}
+	return l.lexToken('\n')
+}
+
+// scanHeredocs scans the pending here-documents. It returns false when
+// the lexer should be terminated.
+func (l *lexer) scanHeredocs() bool {
 	find := func(r *ast.Redir, delim string) bool {
 		for i := len(l.word) - 1; i >= 0; i-- {
 			if l.word[i].Pos().Col() == 1 {
@@ -731,7 +746,7 @@ func (l *lexer) lexHeredoc() action {
 			if err != nil {
 				if !l.heredoc.exists() {
 					if l.lit(); find(h, delim) {
-						return nil
+						return false
 					}
 				}
 				goto Error
@@ -774,14 +789,14 @@ func (l *lexer) lexHeredoc() action {
 					l.lit()
 					l.mark(-1)
 					if !l.scanParamExp() {
-						return nil
+						return false
 					}
 				case '`':
 					// command substitution
 					l.lit()
 					l.mark(-1)
 					if !l.scanCmdSubst('`') {
-						return nil
+						return false
 					}
 				default:
 					l.b.WriteRune(r)
@@ -795,10 +810,10 @@ func (l *lexer) lexHeredoc() action {
 			if err == io.EOF {
 				l.error(h.OpPos, "syntax error: here-document delimited by EOF")
 			}
-			return nil
+			return false
 		}
 	}
-	return l.lexToken('\n')
+	return true
 }
 
 func (l *lexer) scanArithExpr(pos ast.Pos) int {
@@ -1562,6 +1577,9 @@ func (l *lexer) linebreak() bool {
 			// <newline>
 			hash = false
 			l.comment()
+			if l.heredoc.exists() && !l.scanHeredocs() {
+				return false
+			}
 			l.mark(0)
 		case '\t', ' ':
 			// <blank>
